@@ -31,7 +31,7 @@ PROBLEMS = {
                    "weekday_demand_negbin_n": [3.5, 11.0, 7.2, 11.1, 5.9, 5.5, 2.25], "weekday_demand_negbin_delta": [5.7, 6.9, 6.5, 6.2, 5.8, 3.3, 3.5]}],
 }
 OVR = ("new_checkpoint_dir", "checkpoint_frequency", "max_checkpoints", "enable_async_checkpointing")
-STATE_FIELDS = ("iteration", "values", "policy", "gain", "value_history", "history_index", "period")
+STATE_FIELDS = ("iteration", "values", "policy", "gain", "value_history", "history_index", "period", "attr_iteration", "attr_history_index", "attr_period", "attr_gain")
 
 
 def tree_hash(d):
